@@ -269,7 +269,7 @@ fn side_json(r: &StepRes, ids: &Ids, ch: (Vec<J>, Vec<J>), och: (Vec<J>, Vec<J>)
     J::Object(m)
 }
 
-fn drive<F>(fs: &F, sg: &mut Seg)
+fn drive<F>(fs: &F, sg: &mut Seg, caps: FsOptions)
 where
     F: FileSystem,
     F::Inode: From<u64> + Into<u64> + Copy,
@@ -290,6 +290,7 @@ where
     let mut ps = PtSide::new(1);
     ps.no_open = hs.no_open;
     ps.no_opendir = hs.no_opendir;
+    ps.caps = caps;
     let mut g = Gen { rng: Rng::new(sg.rng.next()), mode: sg.mode.clone(), no_open: hs.no_open, no_opendir: hs.no_opendir, wb: sg.cfg.eff_wb(),
                       nodes: vec![NodeInfo { valid: true, kind: "dir".into(), size: 0 }], handles: Vec::new(), gentle: sg.gentle };
     let n = sg.ops.as_ref().map(|o| o.len()).unwrap_or(sg.len);
@@ -358,6 +359,22 @@ where
             let k = host::i(&op, "n");
             if k > 0 && (k as usize) < g.nodes.len() {
                 g.nodes[k as usize].valid = false;
+            }
+        }
+        if o == "batch_forget" {
+            for it in op["items"].as_array().cloned().unwrap_or_default() {
+                let k = it[0].as_i64().unwrap_or(-1);
+                if k > 0 && (k as usize) < g.nodes.len() {
+                    g.nodes[k as usize].valid = false;
+                }
+            }
+        }
+        if o == "remount" {
+            for nd in g.nodes.iter_mut().skip(1) {
+                nd.valid = false;
+            }
+            for hd in g.handles.iter_mut() {
+                hd.valid = false;
             }
         }
         if o == "release" || o == "releasedir" {
@@ -429,13 +446,13 @@ fn run_segment(sg: &mut Seg, tree_spec: Option<&J>) {
     let capable = FsOptions::ASYNC_READ | FsOptions::WRITEBACK_CACHE | FsOptions::ZERO_MESSAGE_OPEN | FsOptions::ZERO_MESSAGE_OPENDIR | FsOptions::DO_READDIRPLUS;
     if sg.cfg.via == "direct" {
         fs.init(capable).expect("init");
-        drive(&fs, sg);
+        drive(&fs, sg, capable);
         fs.destroy();
     } else {
         let vfs = Vfs::new(VfsOptions { no_open: false, no_opendir: false, no_writeback: true, ..Default::default() });
         vfs.mount(Box::new(fs), "/").expect("vfs mount");
         vfs.init(FsOptions::ASYNC_READ | FsOptions::DO_READDIRPLUS).expect("vfs init");
-        drive(&vfs, sg);
+        drive(&vfs, sg, FsOptions::ASYNC_READ | FsOptions::DO_READDIRPLUS);
         vfs.destroy();
     }
     unsafe { libc::umask(0o022) };
@@ -561,7 +578,75 @@ fn targeted(mode: &str, work: &Path) -> Vec<(Cfg, Vec<J>)> {
             out.push((cfg, ops));
         }
     }
+    if mode == "c18" {
+        // DESTROY + INIT on the same object: the second session of a sealed export is judged like the first
+        for no_open in [false, true] {
+            let cfg = Cfg { seal: true, no_open, cache: if no_open { 3 } else { 2 }, ..base.clone() };
+            let h = if no_open { -1 } else { 0 };
+            let mut ops = vec![json!({"op": "lookup", "p": 0, "name": "f1", "nk": "plain"}), json!({"op": "setattr", "n": 1, "h": -1, "valid": ["SIZE"], "attr": {"size": 3}}),
+                               json!({"op": "remount"}),
+                               json!({"op": "lookup", "p": 0, "name": "f1", "nk": "plain"}), json!({"op": "setattr", "n": 2, "h": -1, "valid": ["SIZE"], "attr": {"size": 3}}),
+                               json!({"op": "open", "n": 2, "flags": libc::O_RDWR})];
+            ops.push(json!({"op": "write", "n": 2, "h": h, "off": 6, "data": [49, 50, 51, 52], "flags": libc::O_RDWR}));
+            ops.push(json!({"op": "write", "n": 2, "h": h, "off": 1, "data": [49, 50], "flags": libc::O_RDWR}));
+            ops.push(json!({"op": "fallocate", "n": 2, "h": h, "mode": 0, "off": 6, "len": 8}));
+            ops.push(json!({"op": "open", "n": 2, "flags": libc::O_RDWR | libc::O_TRUNC}));
+            ops.push(json!({"op": "remount"}));
+            ops.push(json!({"op": "create", "p": 0, "name": "f3", "nk": "plain", "flags": libc::O_WRONLY | libc::O_TRUNC, "mode": libc::S_IFREG | 0o644, "umask": 0, "uid": 0, "gid": 0}));
+            ops.push(json!({"op": "getattr", "n": 0, "h": -1}));
+            out.push((cfg, ops));
+        }
+    }
+    if mode == "c06" {
+        // FORGET / BATCH_FORGET of the root with huge counts, then walks upwards through ".."
+        for (host_ino, ifh) in [(true, false), (false, false), (true, true), (false, true)] {
+            let cfg = Cfg { host_ino, ifh, ..base.clone() };
+            let big = 1u64 << 40;
+            let ops = vec![
+                json!({"op": "lookup", "p": 0, "name": "d1", "nk": "plain"}),          // slot 1, kept
+                json!({"op": "lookup", "p": 1, "name": "..", "nk": "dotdot"}),          // slot 2 = root
+                json!({"op": "forget_root", "count": big}),
+                json!({"op": "lookup", "p": 0, "name": "..", "nk": "dotdot"}),          // slot 3
+                json!({"op": "batch_forget", "items": [[0, big]]}),
+                json!({"op": "lookup", "p": 1, "name": "..", "nk": "dotdot"}),          // slot 4 = root again
+                json!({"op": "lookup", "p": 4, "name": "..", "nk": "dotdot"}),          // slot 5 = still the root
+                json!({"op": "lookup", "p": 5, "name": "..", "nk": "dotdot"}),          // slot 6
+                json!({"op": "lookup", "p": 5, "name": "secret", "nk": "plain"}),       // slot 7: ENOENT inside the export
+                json!({"op": "lookup", "p": 6, "name": "outside", "nk": "plain"}),      // slot 8
+                json!({"op": "getattr", "n": 5, "h": -1}),
+                json!({"op": "open", "n": 7, "flags": libc::O_RDONLY}),
+                json!({"op": "read", "n": 7, "h": 0, "off": 0, "len": 16, "flags": libc::O_RDONLY}),
+                json!({"op": "batch_forget", "items": [[0, 3], [2, 1], [3, 1]]}),
+                json!({"op": "lookup", "p": 0, "name": "f1", "nk": "plain"}),
+                json!({"op": "mkdir", "p": 5, "name": "x", "nk": "plain", "mode": 0o755, "umask": 0, "uid": 0, "gid": 0}),
+                json!({"op": "remount"}),
+                json!({"op": "lookup", "p": 0, "name": "..", "nk": "dotdot"}),
+                json!({"op": "lookup", "p": 0, "name": "d1", "nk": "plain"}),
+                json!({"op": "lookup", "p": 12, "name": "..", "nk": "dotdot"}),
+            ];
+            out.push((cfg, ops));
+        }
+    }
     if mode == "c05" {
+        // extended attributes: every operation in both outcomes, on a file and on a directory; and switched off
+        for xattr in [true, false] {
+            let cfg = Cfg { xattr, ..base.clone() };
+            let mut ops = vec![json!({"op": "lookup", "p": 0, "name": "f1", "nk": "plain"})];
+            for n in [1, 0] {
+                ops.push(json!({"op": "setxattr", "n": n, "xname": "user.a", "xval": [49, 50], "xflags": 0}));
+                ops.push(json!({"op": "getxattr", "n": n, "xname": "user.a", "size": 0}));
+                ops.push(json!({"op": "getxattr", "n": n, "xname": "user.a", "size": 64}));
+                ops.push(json!({"op": "getxattr", "n": n, "xname": "user.a", "size": 1}));
+                ops.push(json!({"op": "listxattr", "n": n, "size": 64}));
+                ops.push(json!({"op": "setxattr", "n": n, "xname": "user.a", "xval": [51], "xflags": 1}));
+                ops.push(json!({"op": "setxattr", "n": n, "xname": "user.a", "xval": [51], "xflags": 2}));
+                ops.push(json!({"op": "setxattr", "n": n, "xname": "user.b", "xval": [], "xflags": 2}));
+                ops.push(json!({"op": "removexattr", "n": n, "xname": "user.a"}));
+                ops.push(json!({"op": "removexattr", "n": n, "xname": "user.a"}));
+                ops.push(json!({"op": "getxattr", "n": n, "xname": "user.a", "size": 64}));
+            }
+            out.push((cfg, ops));
+        }
         // SETATTR with explicit / now / untouched times in every combination, through a handle and by reference
         for (no_open, ifh) in [(false, false), (true, false), (false, true)] {
             let cfg = Cfg { no_open, cache: if no_open { 3 } else { 2 }, ifh, ..base.clone() };
